@@ -185,6 +185,16 @@ class SStr:
         return "<symbolic str>"
 
 
+class _MapPool:
+    """a pool-like object (anything with .map), never started"""
+
+    def map(self, f, xs):
+        return list(map(f, xs))
+
+    def __repr__(self):
+        return "<pool-like object with .map>"
+
+
 def make_config(variant):
     """variant: which list-valued/None-valued options are present."""
     has_np, has_vv, has_per, has_ref, blobs = variant
@@ -208,7 +218,9 @@ def make_config(variant):
         vec = boolean(ctx, "vectorize")
         per = [integer(ctx, f"per{i}", lo=-1, hi=3) for i in range(has_per)] if has_per else None
         ref = [integer(ctx, f"ref{i}", lo=-1, hi=3) for i in range(has_ref)] if has_ref else None
-        kw = dict(n_dim=n_dim, n_particles=SInt(npv, -2, 4) if has_np else None, ess_ratio=SFloat(ess),
+        # the pool option does not enter any documented constraint: the verdict must not depend on it (blobs variants only, to bound the paths)
+        with_pool = bool(boolean(ctx, "with_pool")) if blobs else False
+        kw = dict(pool=_MapPool() if with_pool else None, n_dim=n_dim, n_particles=SInt(npv, -2, 4) if has_np else None, ess_ratio=SFloat(ess),
                   volume_variation=SFloat(vv) if has_vv else None, sample=SStr(sample), resample=SStr(resample),
                   vectorize=vec, blobs_dtype="float64" if blobs else None,
                   periodic=[SInt(p, -1, 3) for p in per] if per else None,
@@ -240,7 +252,8 @@ def make_config(variant):
         return raised is None
 
     def concrete_kw(m):
-        kw = dict(n_dim=int(m["n_dim"]), n_particles=int(m["n_particles"]) if has_np else None, ess_ratio=float(m["ess_ratio"]),
+        kw = dict(pool=_MapPool() if (blobs and bool(m.get("with_pool", False))) else None,
+                  n_dim=int(m["n_dim"]), n_particles=int(m["n_particles"]) if has_np else None, ess_ratio=float(m["ess_ratio"]),
                   volume_variation=float(m["volume_variation"]) if has_vv else None, sample=str(m["sample"]), resample=str(m["resample"]),
                   vectorize=bool(m["vectorize"]), blobs_dtype="float64" if blobs else None,
                   periodic=[int(m[f"per{i}"]) for i in range(has_per)] if has_per else None,
@@ -283,7 +296,7 @@ def make_config(variant):
         valid = is_valid(kw)
         bad = (valid != (raised is None)) if label.startswith("rejected") else ncalls > 0
         return {"reproduced": bool(bad), "signature": f"config:{'accepted-invalid' if (raised is None and not valid) else 'rejected-valid' if bad else label}",
-                "payload": {k: (v if not isinstance(v, float) else v) for k, v in kw.items()},
+                "payload": {k: (repr(v) if isinstance(v, _MapPool) else v) for k, v in kw.items()},
                 "what": f"Sampler(**{kw}) -> {'accepted' if raised is None else type(raised).__name__ + ': ' + str(raised)[:120]}; documented constraints say {'valid' if valid else 'invalid'}"}
 
     def validate(w, ret):
@@ -297,7 +310,7 @@ def make_config(variant):
     return Obligation(name, harness, replay=replay, validate=validate,
                       encodes=[Sampler.__init__, config_mod.SamplerConfig.__post_init__, config_mod.SamplerConfig.validate, core_mod.SamplerCore.__init__],
                       bounds="n_dim in [-2,3], n_particles in [-2,4] or None, ess_ratio/volume_variation real in [-2,3] or None, "
-                             f"sample/resample arbitrary strings, vectorize symbolic, periodic list length {has_per}, reflective list length {has_ref} with entries in [-1,3]",
+                             f"sample/resample arbitrary strings, vectorize symbolic, pool None or a pool-like object (blobs variants), periodic list length {has_per}, reflective list length {has_ref} with entries in [-1,3]",
                       theory="QF_LIA/LRA/S", max_paths=90000)
 
 
